@@ -37,6 +37,23 @@ def _alarm(*_a):
     raise Hang()
 
 
+def _cap_threads():
+    """a library that spins may start a timer / delayed-send thread per iteration (REAL threads in the generic runners):
+    past 1,500 live threads the run is the hang it would be reported as anyway, and must not take the machine with it"""
+    import threading
+    if getattr(threading.Thread.start, "_xsm_capped", False):
+        return
+    orig = threading.Thread.start
+
+    def start(self, *a, **k):
+        if threading.active_count() > 1500:
+            _HUNG[0] = True
+            raise Hang()
+        return orig(self, *a, **k)
+    start._xsm_capped = True
+    threading.Thread.start = start
+
+
 class BoundedLog(list):
     """the record log of one run: a macrostep that never ends must not be able to fill the memory with records before
     the watchdog fires - past the bound the run is the hang it would be reported as anyway"""
@@ -47,6 +64,9 @@ class BoundedLog(list):
             _HUNG[0] = True
             raise Hang()
         list.append(self, x)
+
+
+_cap_threads()
 
 
 class GuardRaises(Exception):
